@@ -9,6 +9,9 @@ call time), so every acquire / release / wait is a scheduling point and a caller
 simply a parked logical thread - this is the sound option: completions really happen while the caller waits.
 cassandra.concurrent.Future is replaced by a subclass that records every completion attempt (and who made it).
 
+A completing thread is stopped right after it releases the lock; what is left of its callback runs at the spec's
+FutCheck / LoopReturn step, so the caller and the generator's consumer are interleaved with it at lock granularity.
+
 One *lock section* of the spec (BeginSubmit/Complete .. Ret with holder back to "none") is one real step:
 the events seen by the fake session during it (execute_async calls, callback invocations) must be exactly the
 section's Start / Put actions in order, and the projection of the real state must equal the spec state at the
@@ -211,8 +214,11 @@ class ConcHarness:
             self.completers[i] = t
             self.last_completer = t
             self.sched.spawn(t, self.futures[i].complete, self.beh[i] in OK)
-            return self.run(t, ("rel",) if self.variant == "future" else ("never",))
-        if name == "FutCheck":
+            # the completing thread is parked right after it has released the lock (yield on release); the rest of its
+            # callback is a separate spec step (FutCheck for the future variant, LoopReturn otherwise) so that the
+            # caller / consumer can be scheduled in between, at lock granularity
+            return self.run(t, ("rel",))
+        if name in ("FutCheck", "LoopReturn"):
             return self.run(self.last_completer, ("never",))
         raise RuntimeError("unknown action %s" % name)
 
